@@ -60,12 +60,13 @@ def main(run):
     if tier == "quick":
         lat = [p for k, p in enumerate(lat) if p["family"] in ("F-setsym", "F-edge") or k % 9 == 0]
         gen = ktree.generate(run.seed + 300, 30)
-        maxlen, cap = 3, 140
+        maxlen, cap, nwalk = 3, 140, 8
     else:
         gen = ktree.generate(run.seed + 300, 400)
-        maxlen, cap = 3, 3000
+        maxlen, cap, nwalk = 3, 3000, 80
     sess = [alphabet(dict(it), rng) for it in lat + gen]
     total = 0
+    nlong = 0
     bad = set()
     chunk = 40
     for b in range(0, len(sess), chunk):
@@ -73,7 +74,7 @@ def main(run):
         res, hists = histcheck.explore(run, part, maxlen, "c03_%d" % b, workers=1)
         run.add("states", res.distinct)
         run.add("transitions", res.generated)
-        for it, hs in zip(part, hists):
+        for pi, (it, hs) in enumerate(zip(part, hists)):
             # keep histories that end in a change preceded by a read, or in a read: those are
             # the ones in which a stale result can show; stride-sample the rest
             if len(hs) > cap:
@@ -90,6 +91,12 @@ def main(run):
                 else:
                     rest = []
                 hs = prio + rest
+            # deeper than the exhaustive bound: seeded walks of 4..8 actions over the same alphabet (every
+            # index sequence is a behaviour of MC_Hist); validated by MC_HistCheck like the others
+            wr = random.Random("%d/walk/%d" % (run.seed, b + pi))
+            walks = [[wr.randrange(len(it["acts"])) + 1 for _ in range(wr.randint(4, 8))] for _ in range(nwalk)]
+            hs = hs + walks
+            nlong += len(walks)
             it["traces"] = [histcheck.replay(run, it, h, random.Random("%d/%d" % (run.seed, j)), with_fresh=True) for j, h in enumerate(hs)]
             total += len(hs)
             for tr in it["traces"]:
@@ -120,11 +127,12 @@ def main(run):
     run.cov["traces_validated_against_impl"] = total - len(bad)
     run.cov["distinct_nontrivial"] = total
     run.cov["sessions"] = total
+    run.cov["long_walks"] = nlong
     run.cov["exhaustive"] = tier == "thorough"
     run.cov["rule"] = (
         "every transition of the TLC exploration of sessions <= %d actions over per-program alphabets (set 2 values / unset per option, "
         "member picks, reset, read of single options, read all, merge and replace load of a hand-written file) on the F-prec / F-nest / "
-        "F-choice / F-setsym lattices and generated programs; each replayed on a fresh instance without cache flushes; clauses: value = "
+        "F-choice / F-setsym lattices and generated programs, plus seeded walks of 4-8 actions over the same alphabets; each replayed on a fresh instance without cache flushes; clauses: value = "
         "from-scratch specification value, = value after _invalidate_all(), = fresh instance with the same user state applied in another "
         "order, = second read in another order; every history is distinct and non-trivial (at least one action)" % maxlen
     )
